@@ -62,6 +62,8 @@ func usesBodies(T string) [][]*ir.S {
 		{leafD, ir.N("anydata", "gad")},
 		{ir.Cont("gn", ir.Uses("g2"), ir.Leaf("own", T))},
 		{ll3, ir.Leaf("after", T)},
+		// constraints and extension statements on the grouping's nodes
+		{&ir.S{Kind: "leaf", Name: "gm", Type: T, Must: "1 = 1", Ext: "on-leaf"}, &ir.S{Kind: "container", Name: "gmc", Ext: "on-container", Must: "2 = 2", Kids: []*ir.S{ir.Leaf("inner", "string")}}},
 		// directory nodes without children (their child map is empty, not absent)
 		{ir.Cont("ge"), ir.Leaf("gl2", T), ir.N("choice", "gce", ir.N("case", "emptycase"), ir.Leaf("gcs", T))},
 		// choices nested below shorthand members of other choices
